@@ -419,6 +419,8 @@ API = {  # harness phase -> library entry points executed in that phase
                  "MIR_set_lazy_gen_interface", "MIR_set_lazy_bb_gen_interface"],
     "run": ["MIR_interp_arr", "MIR_interp", "MIR_gen", "MIR_set_interp_interface",
             "MIR_set_lazy_gen_interface", "MIR_set_lazy_bb_gen_interface"],
+    "code_patch": ["_MIR_get_new_code_addr", "_MIR_publish_code", "_MIR_change_code", "_MIR_update_code",
+                   "_MIR_update_code_arr"],
     "MIR_gen_finish": ["MIR_gen_finish"],
     "MIR_finish": ["MIR_finish"],
 }
